@@ -689,6 +689,30 @@ def delegate_replaced_scenario(log):
         holder[:] = [o]
         o.v = object()
         del o
+    # a delegate computed by a method: a fresh object with no other owner at all
+    log.write("F delegate-replaced-during-delegated-set\n")
+    log.flush()
+
+    class TLeaf(HasTraits):
+        v = Any()
+
+        def _v_changed(self, new):
+            gc.collect()
+
+    class TOwner(HasTraits):
+        leaf = Property()
+        v = DelegatesTo("leaf")
+
+        def _get_leaf(self):
+            return TLeaf()
+
+    for _ in range(50):
+        o = TOwner()
+        try:
+            o.v = object()
+        except Exception:
+            pass
+        del o
     junk = [DOwner(leaf=DLeaf()) for _ in range(500)]
     del junk
     gc.collect()
